@@ -5,12 +5,14 @@
    [validate_sidecar fixed Vd Vb Vc Vh Vf j] is the model of
    Sidecar(io.StringIO(json_text)).validate(schema).  Vd..Vf are the abstract
    string-level validators -- ALL theorems quantify over them and over ALL
-   JSON values.  [fixed = true] is the code as it is now (with the fix:
-   commits ae9929b, 8a59f35, f477d0a); [fixed = false] is the code before them
+   JSON values.  [fixed = true] is the code as it is in /repo now (it contains
+   the fix commits ae9929b, 8a59f35, f477d0a; the correspondence run executes
+   the model in this mode, harness FIXED = 1); [fixed = false] is the behaviour
+   before those three commits
    and only appears in part II, the record of the repaired defects. *)
 From Coq Require Import List NArith.
 From HV Require Import Base.Res Base.Str Gen.SidecarCodes Model.Sidecar
-                       Proofs.SidecarProofs Proofs.SidecarClean.
+                       Proofs.SidecarProofs Proofs.SidecarClean Proofs.SidecarRefsSpec.
 Import ListNotations.
 
 (* ====================================================================== *)
@@ -23,15 +25,26 @@ Theorem C08_never_raises : forall Vd Vb Vc Vh Vf kvs,
 Proof. exact never_raises_fixed. Qed.
 Print Assumptions C08_never_raises.
 
-(* ... and a document that is not an object is refused while loading with the
-   documented HedFileError (it is not a sidecar). *)
+(* DECLARED DEVIATION from the literal statement.  The statement says "any
+   JSON-decodable sidecar ... never raises".  That is proved above for every
+   document whose root is a JSON object -- which is what a sidecar is.  For any
+   other JSON document (scalar, string, list) the literal reading is FALSE of
+   the current code: since fix commit 8a59f35 the Sidecar constructor refuses
+   it with the documented HedFileError (before 8a59f35: TypeError/ValueError,
+   see part II).  The theorem below states exactly this behaviour; it is the
+   precise form of the exception to "never raises", not a proof of that clause
+   for non-object roots.  The oracle accepts HedFileError for this input class
+   only. *)
 Theorem C08_nonobject_refused : forall Vd Vb Vc Vh Vf j,
   is_obj j = false -> validate_sidecar true Vd Vb Vc Vh Vf j = Exn HedFileError.
 Proof. exact nonobject_refused_fixed. Qed.
 Print Assumptions C08_nonobject_refused.
 
 (* Clause 2 (wellformed_clean): a sidecar obeying the structural rules
-   (struct_ok, Model/Sidecar.v: HED entries are strings with exactly one '#' or
+   (struct_ok, Model/Sidecar.v; it does not use the validator's column type
+   detection: "HED-bearing" is spec_bearing, references are find_refs, which
+   C08_find_refs_spec characterises declaratively; check_for_key is the plain
+   recursive "key occurs at any depth").  HED entries are strings with exactly one '#' or
    non-empty maps of non-empty '#'-free strings whose keys are not n/a; HED is
    not a column name nor a key inside plain metadata; braces balanced and
    un-nested; references name HED or an existing HED-bearing column, not the
@@ -152,6 +165,64 @@ Theorem C08_fault_category_hash_anywhere : forall Vd Vb Vc Vh Vf sc name kvs hv 
 Proof. exact now_fault_category_hash_anywhere. Qed.
 Print Assumptions C08_fault_category_hash_anywhere.
 
+(* The statement's own situation -- a sidecar that obeys every structural rule
+   except the '#' counts (struct_ok_but_hash = struct_ok without the two count
+   conditions; struct_ok implies it): the early exit is impossible and
+   PLACEHOLDER_INVALID IS reported, no disjunct. *)
+Theorem C08_fault_value_hash_wellformed : forall Vd Vb Vc Vh Vf sc name kvs s,
+  struct_ok_but_hash sc = true ->
+  In (name, JObj kvs) sc -> lookup s_HED kvs = Some (JStr s) ->
+  Vc s = 0 -> (forall ds, Vh ds s = count ch_hash s) -> count ch_hash s <> 1 ->
+  exists out, validate_sidecar true Vd Vb Vc Vh Vf (JObj sc) = Ok out /\
+              In c_PLACEHOLDER_INVALID (error_codes out).
+Proof. exact now_fault_value_hash_wellformed. Qed.
+Print Assumptions C08_fault_value_hash_wellformed.
+
+Theorem C08_fault_category_hash_wellformed : forall Vd Vb Vc Vh Vf sc name kvs hv key s,
+  struct_ok_but_hash sc = true ->
+  In (name, JObj kvs) sc -> lookup s_HED kvs = Some (JObj hv) -> In (key, JStr s) hv ->
+  Vc s = 0 -> (forall ds, Vh ds s = count ch_hash s) -> count ch_hash s <> 0 ->
+  exists out, validate_sidecar true Vd Vb Vc Vh Vf (JObj sc) = Ok out /\
+              In c_PLACEHOLDER_INVALID (error_codes out).
+Proof. exact now_fault_category_hash_wellformed. Qed.
+Print Assumptions C08_fault_category_hash_wellformed.
+
+Theorem C08_struct_ok_but_hash_weaker : forall sc, struct_ok sc = true -> struct_ok_but_hash sc = true.
+Proof. exact struct_ok_weaken. Qed.
+Print Assumptions C08_struct_ok_but_hash_weaker.
+
+Theorem C08_but_hash_no_early_exit : forall sc out,
+  struct_ok_but_hash sc = true -> ~ early_exit true sc out.
+Proof. exact but_hash_no_early_exit. Qed.
+Print Assumptions C08_but_hash_no_early_exit.
+
+(* the same whenever the structure/reference screening reports no error *)
+Theorem C08_fault_value_hash_screened : forall Vd Vb Vc Vh Vf sc name kvs s i1 i2,
+  validate_structure sc = Ok i1 -> validate_refs true sc = Ok i2 -> any_error (i1 ++ i2) = false ->
+  In (name, JObj kvs) sc -> lookup s_HED kvs = Some (JStr s) ->
+  Vc s = 0 -> (forall ds, Vh ds s = count ch_hash s) -> count ch_hash s <> 1 ->
+  exists out, validate_sidecar true Vd Vb Vc Vh Vf (JObj sc) = Ok out /\
+              In c_PLACEHOLDER_INVALID (error_codes out).
+Proof. exact now_fault_value_hash_screened. Qed.
+Print Assumptions C08_fault_value_hash_screened.
+
+Theorem C08_fault_category_hash_screened : forall Vd Vb Vc Vh Vf sc name kvs hv key s i1 i2,
+  validate_structure sc = Ok i1 -> validate_refs true sc = Ok i2 -> any_error (i1 ++ i2) = false ->
+  In (name, JObj kvs) sc -> lookup s_HED kvs = Some (JObj hv) -> In (key, JStr s) hv ->
+  Vc s = 0 -> (forall ds, Vh ds s = count ch_hash s) -> count ch_hash s <> 0 ->
+  exists out, validate_sidecar true Vd Vb Vc Vh Vf (JObj sc) = Ok out /\
+              In c_PLACEHOLDER_INVALID (error_codes out).
+Proof. exact now_fault_category_hash_screened. Qed.
+Print Assumptions C08_fault_category_hash_screened.
+
+(* non-vacuity of struct_ok_but_hash: the two faulty examples satisfy it (and
+   violate struct_ok), the well-formed example satisfies both *)
+Example C08_but_hash_examples :
+  struct_ok_but_hash sc_hash0 = true /\ struct_ok sc_hash0 = false /\
+  struct_ok_but_hash sc_hash_same_tag = true /\ struct_ok sc_hash_same_tag = false /\
+  struct_ok_but_hash sc_good = true.
+Proof. exact but_hash_examples. Qed.
+
 (* concrete: {"c": {"HED": "Label/##"}} yields exactly PLACEHOLDER_INVALID *)
 Example C08_same_tag_example :
   exists out, validate_sidecar true V0_defs V0_basic V0_defcount V0_hashes V0_full (JObj sc_hash_same_tag) = Ok out /\
@@ -198,6 +269,39 @@ Theorem C08_fault_nested_ref : forall Vd Vb Vc Vh Vf sc n1 v1 n2 v2,
 Proof. exact now_fault_nested_ref. Qed.
 Print Assumptions C08_fault_nested_ref.
 
+(* Declarative readings of the notions the rules and hypotheses above use.
+   A reference found by the scanner (the model of the re.findall call) is
+   exactly an occurrence of '{', a non-empty run of reference characters, '}'. *)
+Theorem C08_find_refs_spec : forall s m : str,
+  In m (find_refs s) <->
+  exists pre post, s = pre ++ ch_lbrace :: m ++ ch_rbrace :: post /\
+                   m <> [] /\ forallb is_ref_char m = true.
+Proof. exact find_refs_spec. Qed.
+Print Assumptions C08_find_refs_spec.
+
+(* hed_bearing (hypothesis of the brace/reference fault theorems): an object
+   whose HED entry is a string with a '#' or a map of strings *)
+Theorem C08_hed_bearing_spec : forall v,
+  hed_bearing v = true <->
+  exists kvs, v = JObj kvs /\
+    ((exists s, lookup s_HED kvs = Some (JStr s) /\ has_hash s = true) \/
+     (exists hv, lookup s_HED kvs = Some (JObj hv) /\ forallb is_str (map snd hv) = true)).
+Proof. exact hed_bearing_spec. Qed.
+Print Assumptions C08_hed_bearing_spec.
+
+(* all_hed_columns (C08_fault_unknown_ref) lists the entries that are objects
+   with a HED key *)
+Theorem C08_is_hed_column_spec : forall v,
+  is_hed_column v = true <-> exists kvs, v = JObj kvs /\ has_key s_HED kvs = true.
+Proof. exact is_hed_column_spec. Qed.
+Print Assumptions C08_is_hed_column_spec.
+
+(* within struct_ok, the specification-level "HED-bearing" is the validator's *)
+Theorem C08_spec_bearing_hed_bearing : forall sc name v,
+  col_ok sc (name, v) = true -> spec_bearing v = true -> hed_bearing v = true.
+Proof. exact spec_bearing_hed_bearing. Qed.
+Print Assumptions C08_spec_bearing_hed_bearing.
+
 (* The validator's brace scan reports nothing exactly for balanced,
    un-nested braces (all strings). *)
 Theorem C08_braces_spec : forall s : str,
@@ -235,9 +339,12 @@ Example C08_nonvacuous :
 Proof. exact now_example. Qed.
 
 (* ====================================================================== *)
-(* II. Record of the repaired defects (code before the fix: commits)      *)
+(* II. Record of the repaired defects: behaviour BEFORE the fix commits     *)
+(*     ae9929b, 8a59f35, f477d0a ([fixed = false]).  /repo contains all      *)
+(*     three; nothing below is false of the implementation as it is now.     *)
 
-(* "never raises" was FALSE of the code before the repairs:
+(* Behaviour before fix commits ae9929b / 8a59f35 / f477d0a: "never raises"
+   was FALSE of that code:
    {"TaskName": "rest"} raised AttributeError (fixed by ae9929b), [1] raised
    TypeError while loading (8a59f35), {"onset": {"HED": "{col1}"}} raised
    KeyError (f477d0a). *)
@@ -249,7 +356,7 @@ Theorem C08_never_raises_refuted :
 Proof. exact never_raises_refuted. Qed.
 Print Assumptions C08_never_raises_refuted.
 
-(* what did hold before the repairs: no exception on objects whose entries are
+(* what did hold before fix commits ae9929b / f477d0a: no exception on objects whose entries are
    all objects and whose '#'-less value strings reference only known columns *)
 Theorem C08_never_raises_partial : forall Vd Vb Vc Vh Vf kvs,
   cols_objects kvs = true -> hashless_refs_known kvs = true ->
@@ -257,7 +364,7 @@ Theorem C08_never_raises_partial : forall Vd Vb Vc Vh Vf kvs,
 Proof. exact never_raises_partial. Qed.
 Print Assumptions C08_never_raises_partial.
 
-(* the three refuting documents under the repaired code *)
+(* the same three documents on the code as it is now (fixed = true) *)
 Theorem C08_witnesses_fixed : forall Vd Vb Vc Vh Vf,
   (exists l, validate_sidecar true Vd Vb Vc Vh Vf w_taskname = Ok l) /\
   validate_sidecar true Vd Vb Vc Vh Vf w_toplist = Exn HedFileError /\
